@@ -16,9 +16,9 @@ theorem reward_eq_objective (i : Inst) (h00 : i.openR = true ∨ i.D 0 0 = 0) (a
     reward i as = - objective i as := by
   have hc : charged i 0 0 = 0 := by
     rcases h00 with h | h
-    · simp [charged, h]
-    · simp only [charged]; split <;> simp [h]
-  simp only [reward, objective, rollLen_eq_closedLen, closedLen]
+    · simp [charged_def, h]
+    · simp only [charged_def]; split <;> simp [h]
+  simp only [reward_def, objective, rollLen_eq_closedLen, closedLen]
   rw [closed_eq_routesLen (charged i) hc as, routesLen]
   congr 2
   apply List.map_congr_left
